@@ -627,7 +627,7 @@ def act(**kw):
 PEER = ip4(10, 0, 0, 1); LOCAL = ip4(10, 0, 0, 254)
 SRC_E = [0, PEER, LOCAL, 65001, 65000]
 SRC_I = [0, PEER, LOCAL, 65000, 65000]
-SRC_L = [1, PEER, LOCAL, 0, 0]
+SRC_L = [1, ip4(0, 0, 0, 0), ip4(0, 0, 0, 0), 0, 0]     # Source::local(): the static with unspecified addresses, AS 0
 SRC_6 = [0, ip6(V6BASE | 1), ip6(V6BASE | 2), 65001, 65000]
 
 def ev(net, attrs, d=1, src=None, nh=None, orig=None, confed=0, local=None, peer=None):
